@@ -462,6 +462,8 @@ def h_circuit_ops(env, N, prog, config, direction):
             circ.take(gate)
         if config == 'circuit':
             circ.compile(N) if torch_side else circ.compile()
+        if config == 'copy':
+            circ = circ.copy()          # run the copy (layer links, gates and maps must all have been carried over)
         obj = P.PauliList(conv(gs), conv(ps))
         getattr(circ, direction)(obj)
         return (obj.gs, obj.ps)
@@ -556,7 +558,7 @@ def jobs(tier):
     progs = [(2, [['gen', [0, 1]]]), (2, [['gen', [1]], ['gen', [0, 1]]]), (2, [['fmap', [0]], ['gen', [0, 1]]]), (2, [['gen', [0]], ['gen', [1]], ['gen', [0, 1]]]),
              (3, [['gen', [0, 1]], ['gen', [1, 2]], ['gen', [0]], ['gen', [0]]]), (3, [['gen', [0]], ['gen', [1]], ['gen', [1]], ['gen', [0, 2]], ['gen', [2]]])]
     for N, prog in progs:
-        for config in ('plain', 'circuit'):
+        for config in ('plain', 'circuit', 'copy'):
             if N == 3 and config == 'circuit':
                 continue
             for direction in ('forward', 'backward'):
